@@ -549,9 +549,20 @@ def gen_add(rng):
     axis = rng.choice(['sample', 'observation'])
     ids = list(spec['sids'] if axis == 'sample' else spec['oids'])
     keys = axis_keys(spec, axis)
-    pool = ids + ['zz%d' % i for i in range(2)] + [ids[0] + ' ', ids[0].upper() + '_']
+    unknown = ['zz%d' % i for i in range(2)] + [ids[0] + ' ', ids[0].upper() + '_']
     r = rng.random()
-    chosen = [] if r < 0.06 else [x for x in pool if rng.random() < 0.55]
+    if r < 0.06:
+        chosen = []
+    elif r < 0.26:
+        chosen = [x for x in ids if rng.random() < 0.6] or ids[:1]          # subset
+    elif r < 0.38:
+        chosen = list(ids)                                                  # exactly the ids
+    elif r < 0.55:
+        chosen = list(ids) + [x for x in unknown if rng.random() < 0.6]     # superset
+    elif r < 0.63:
+        chosen = [x for x in unknown if rng.random() < 0.7]                 # unknown ids only
+    else:
+        chosen = [x for x in ids + unknown if rng.random() < 0.55]          # partial overlap
     rng.shuffle(chosen)
     mapping = []
     for i in dict.fromkeys(chosen):
